@@ -36,8 +36,8 @@ ASSUMPTIONS = [
     'grids whose levels are closer than 1e-9 decades are counted, not judged',
     'temperature and molecular weight per layer are inputs here (decided by C12 / C10)',
 ]
-_Q = {'grid': 300, 'scale': 300, 'model': 110, 'align': 60}
-_T = {'grid': 4000, 'scale': 4000, 'model': 1300, 'align': 700}
+_Q = {'grid': 200, 'scale': 200, 'model': 75, 'align': 45}
+_T = {'grid': 2500, 'scale': 2500, 'model': 800, 'align': 450}
 BUDGET = {
     'quick': [dict(name='main', env={}, shards=8, cases=_Q)],
     'thorough': [dict(name='main', env={}, shards=16, cases=_T)],
